@@ -9,8 +9,8 @@ TB = ("Trusted: Lean 4.33 kernel (axioms propext/Classical.choice/Quot.sound at 
 
 CLAIMED = {
  "C01": dict(cat="proof", tech="Lean 4 simulation proof + verified acceptor on implementation output + model correspondence",
-   text="Theorem accepted_preserves: for every program, allocation, instruction meaning and initial state, if the executable acceptor (liveness post-fixpoint, no definition onto a different live-out byte sharing storage) passes then the allocated program and the private-storage program agree on memory and control at every step; entry_rel discharges the initial-state premise from 'reads only written bytes'. The acceptor is evaluated on the real passes' own data for thousands of generated functions per run, and the real allocator is compared exactly with a Lean model of it.",
-   note=TB + "Modelled-not-verified: x86 instructions as functions of declared read bytes writing declared bytes (C04); VEX upper-bit zeroing (F12); encodability rule for high-byte registers measured on the Go assembler. The theorem that the *model* allocator always yields an accepted allocation (all programs) is not yet proved; per-run acceptance stands for it."),
+   text="Theorem accepted_preserves: for every program, allocation, instruction meaning and initial state, if the executable acceptor (liveness post-fixpoint, no definition onto a different live-out byte sharing storage) passes then the allocated program and the private-storage program agree on memory and control at every step; entry_rel discharges the initial-state premise from 'reads only written bytes'. avo_alloc_valid_installed: for every function, whenever the Lean model of avo's graph-colouring allocator (update/mostrestricted/alloc loop, interference construction, all kinds) succeeds on avo's regenerated register file, its allocation passes that acceptor's validity and shape checks (loop-invariant proof). The acceptor is also evaluated on the real passes' own data for thousands of generated functions per run, and the real allocator is compared exactly with the model.",
+   note=TB + "Modelled-not-verified: x86 instructions as functions of declared read bytes writing declared bytes (C04); VEX upper-bit zeroing (F12); encodability rule for high-byte registers measured on the Go assembler."),
  "C02": dict(cat="proof", tech="Lean 4 proof of fixed-point exactness + exact correspondence + path-search acceptor",
    text="Theorems liveness_exact / liveout_exact: when the in-place round-robin iteration stops, a byte lane is reported live iff the path specification holds (soundness by invariant, completeness at the quiet sweep), for every CFG and mask combination; order independence proved. MaskSet operations are proved to be set operations on (id, lane). The real Liveness is compared exactly with the model and with a direct path-search evaluation of the specification; the real use/def extraction of every form is compared with the read/write specification derived from the form's operand actions.",
    note=TB + "Termination of the iteration is not proved in Lean (the driver uses a computed fuel bound and reports non-termination); operand actions of the table are taken as given (C04)."),
